@@ -1371,3 +1371,109 @@ fn tendency_i16_wasm32_simd128(
     let x = v128_bitselect(neg_x, x, need_neg);
     v128_and(no_skip, x)
 }
+
+/// Verification hook H7: direct entry points to the squeeze kernels (scalar and SIMD), so that a
+/// test harness can run them on arbitrary widths and heights. Not part of the public API.
+#[cfg(jxl_oxide_verif)]
+pub mod verif {
+    use jxl_grid::MutableSubgrid;
+
+    /// Names of the CPU features the dispatchers look at, with what the running CPU reports.
+    pub fn cpu_features() -> Vec<(&'static str, bool)> {
+        #[allow(unused_mut)]
+        let mut v = Vec::new();
+        #[cfg(target_arch = "x86_64")]
+        {
+            v.push(("sse2", super::is_x86_feature_detected!("sse2")));
+            v.push(("sse4.1", super::is_x86_feature_detected!("sse4.1")));
+            v.push(("avx2", super::is_x86_feature_detected!("avx2")));
+            v.push(("fma", super::is_x86_feature_detected!("fma")));
+        }
+        #[cfg(target_arch = "aarch64")]
+        {
+            v.push(("neon", super::is_aarch64_feature_detected!("neon")));
+        }
+        v
+    }
+
+    /// The dispatching entry points, exactly what the decoder calls.
+    pub fn inverse_h_i16(merged: &mut MutableSubgrid<'_, i16>) {
+        super::inverse_h_i16(merged)
+    }
+    pub fn inverse_h_i32(merged: &mut MutableSubgrid<'_, i32>) {
+        super::inverse_h_i32(merged)
+    }
+    pub fn inverse_v_i16(merged: &mut MutableSubgrid<'_, i16>) {
+        super::inverse_v_i16(merged)
+    }
+    pub fn inverse_v_i32(merged: &mut MutableSubgrid<'_, i32>) {
+        super::inverse_v_i32(merged)
+    }
+
+    /// Scalar kernels.
+    pub fn inverse_h_i16_base(merged: &mut MutableSubgrid<'_, i16>) {
+        super::inverse_h_i16_base(merged)
+    }
+    pub fn inverse_h_i32_base(merged: &mut MutableSubgrid<'_, i32>) {
+        super::inverse_h_i32_base(merged)
+    }
+    pub fn inverse_v_i16_base(merged: &mut MutableSubgrid<'_, i16>) {
+        super::inverse_v_i16_base(merged)
+    }
+    pub fn inverse_v_i32_base(merged: &mut MutableSubgrid<'_, i32>) {
+        super::inverse_v_i32_base(merged)
+    }
+
+    /// x86_64 kernels. Each returns `false` without touching the grid if the CPU lacks the
+    /// features the kernel is compiled for.
+    #[cfg(target_arch = "x86_64")]
+    pub fn inverse_h_i16_x86_64_avx2(merged: &mut MutableSubgrid<'_, i16>) -> bool {
+        if super::is_x86_feature_detected!("avx2")
+            && super::is_x86_feature_detected!("sse4.1")
+            && super::is_x86_feature_detected!("sse2")
+        {
+            unsafe { super::inverse_h_i16_x86_64_avx2(merged) };
+            true
+        } else {
+            false
+        }
+    }
+    #[cfg(target_arch = "x86_64")]
+    pub fn inverse_h_i16_x86_64_sse41(merged: &mut MutableSubgrid<'_, i16>) -> bool {
+        if super::is_x86_feature_detected!("sse4.1") && super::is_x86_feature_detected!("sse2") {
+            unsafe { super::inverse_h_i16_x86_64_sse41(merged) };
+            true
+        } else {
+            false
+        }
+    }
+    #[cfg(target_arch = "x86_64")]
+    pub fn inverse_v_i16_x86_64_avx2(merged: &mut MutableSubgrid<'_, i16>) -> bool {
+        if super::is_x86_feature_detected!("avx2")
+            && super::is_x86_feature_detected!("sse4.1")
+            && super::is_x86_feature_detected!("sse2")
+        {
+            unsafe { super::inverse_v_i16_x86_64_avx2(merged) };
+            true
+        } else {
+            false
+        }
+    }
+    #[cfg(target_arch = "x86_64")]
+    pub fn inverse_v_i16_x86_64_sse41(merged: &mut MutableSubgrid<'_, i16>) -> bool {
+        if super::is_x86_feature_detected!("sse4.1") && super::is_x86_feature_detected!("sse2") {
+            unsafe { super::inverse_v_i16_x86_64_sse41(merged) };
+            true
+        } else {
+            false
+        }
+    }
+
+    /// Scalar `tendency` (the smooth-gradient predictor term of the squeeze step).
+    pub fn tendency_i16(a: i16, b: i16, c: i16) -> i16 {
+        super::tendency_i16(a, b, c)
+    }
+    pub fn tendency_i32(a: i32, b: i32, c: i32) -> i32 {
+        super::tendency_i32(a, b, c)
+    }
+}
